@@ -1339,8 +1339,10 @@ def fixed_corpus(ctx):
     case = {"fmt": "json", "spec": ALL_ZERO_SPEC, "route": "dense", "muts": [],
             "corpus": "all-zero table (fixed e8ba4fdc)"}
     ctx.case(case)
-    json_case(ctx, case, json.loads(text), [], text=text, is_base=True, tags=("corpus", "all-zero-data"),
-              with_exit=True, written_from=ALL_ZERO_SPEC)
+    doc0 = loads_written(ctx, text, ALL_ZERO_SPEC, "corpus-all-zero")
+    if doc0 is not None:
+        json_case(ctx, case, doc0, [], text=text, is_base=True, tags=("corpus", "all-zero-data"),
+                  with_exit=True, written_from=ALL_ZERO_SPEC)
 
 
 MD_SPEC = {"obs": ["a", "b"], "samp": ["x", "y", "z"], "rows": [[1.0, 0.0, 2.0], [0.0, 3.5, 0.0]],
@@ -1362,6 +1364,19 @@ def fixed_corpus_h5(ctx):
                 "corpus": "metadata check ignored (fixed dd41daf0)"}
         ctx.case(case)
         h5_case(ctx, case, bp, tree, [mu], 2, 3, tags=("corpus", "md-check"), with_exit=True, fvs=H5_FVS)
+
+
+
+
+def loads_written(ctx, text, spec, tag):
+    """the writer's own text parsed; when it is not JSON that is a failed case (written_valid), never a harness crash"""
+    try:
+        return json.loads(text)
+    except ValueError as e:
+        ctx.case({"fmt": "json", "base": base_key(spec), "muts": [], "at": tag}, nontrivial=True)
+        ctx.fail({"fmt": "json", "spec": spec, "route": "dense", "muts": []}, "written_valid",
+                 ("json", "written", "base-document-not-json", tag), detail={"error": str(e)})
+        return None
 
 
 # ----------------------------------------------------------------------------- run
@@ -1442,7 +1457,9 @@ def _run(ctx):
                         fvs=(None, "2.1.0"))
         ctx.count("wide:%s:%d" % (axis, max(len(spec["obs"]), len(spec["samp"]))))
         # mutations far from the first positions of a wide document
-        doc = json.loads(written_json(spec, "dense"))
+        doc = loads_written(ctx, written_json(spec, "dense"), spec, "wide")
+        if doc is None:
+            continue
         n, m = doc["shape"]
         for mu in ({"m": "dupId", "ax": "rows" if axis == "observation" else "columns", "i": 0, "j": max(n, m) - 1},
                    {"m": "blankId", "ax": "rows" if axis == "observation" else "columns", "i": max(n, m) - 2},
@@ -1489,7 +1506,14 @@ def _run(ctx):
         spec = gen_base_spec(rng, exact, max_n=4, max_m=4, min_n=2 if b % 2 == 0 else 1,
                              min_m=2 if b % 3 != 2 else 1, density=dens)
         text = written_json(spec, "dense")
-        doc = json.loads(text)
+        try:
+            doc = json.loads(text)
+        except ValueError as e:
+            # the writer's own text is not JSON: a failed case (nothing written by the library may be invalid), not a crash
+            ctx.case({"fmt": "json", "base": base_key(spec), "muts": []}, nontrivial=True)
+            ctx.fail({"fmt": "json", "spec": spec, "route": "dense", "muts": []}, "written_valid",
+                     ("json", "written", "base-document-not-json"), detail={"error": str(e)})
+            continue
         bases.append((spec, doc))
         singles = json_mutations(doc)
         for mu in singles:
